@@ -234,7 +234,15 @@ def warm_up(athlib, scn):
              c('wma_world_best', 'f', '7K'), c('wma_athlon_age_factor', 'M', 66, '60H'),
              c('athlon_score', 'M', '100', 12.5, age=50)]
     if variant == 'cachefull':
-        calls += scn['warm']
+        if 'warm' in scn:
+            calls += scn['warm']
+        else:
+            # replays recorded by the first version of the engine: fixed fill of 22 keys per cache
+            for i in range(22):
+                calls.append(c('utils.schema_valid', SCHEMAS[i % len(SCHEMAS)],
+                               validator=V(VALIDATORS[(i // len(SCHEMAS)) % 4])))
+            for d, s in DOC_PAIRS[:22]:
+                calls.append(c('utils.valid_against_schema', d, s))
     for cl in calls:
         make_callable(athlib, cl)()
 
@@ -692,6 +700,8 @@ def main(tier_, replay=None):
         cnt.merge(p['cnt']); fnsw.merge(p['fnsw']); byg.merge(p['by_group']); byv.merge(p['by_variant'])
         sigs |= p['sigs']; sigs_nt |= p['sigs_nt']; viols += p['violations']; samples += p['samples']
         herr += p['harness_errors']
+    corpus = run_corpus()
+    viols += corpus['viols']
     det = determinism_selftest(master, cfg['det'])
     wall = time.time() - t0
     # one replay per distinct violation class
@@ -743,6 +753,7 @@ def main(tier_, replay=None):
         'oracle_sequential_runs': cnt.get('oracle_orders', 0),
         'violating_runs': cnt.get('violating_runs', 0),
         'violation_classes': sorted(seen),
+        'regression_corpus': {'replayed': corpus['replayed'], 'reproduced': corpus['reproduced']},
         'all_runs_digest': '%016x' % rd,
         'lock_seam_objects_rebound': cnt.get('lock_seam_rebound', 0),
         'components': {'real': ['athlib (working tree)', 'jsonschema', 'json', 'decimal', 'CPython threads'],
@@ -767,6 +778,38 @@ def main(tier_, replay=None):
         print('HARNESS-ERROR determinism self-test diverged: %s' % det)
         return 2
     return 1 if seen else 0
+
+
+def run_corpus():
+    """Directed regression: re-execute every recorded failing (scenario, schedule) of C16."""
+    files = common.corpus_files(PROP)
+    def w(wi, nw):
+        athlib, _ = prepare_athlib()
+        res = []
+        for path in files[wi::nw]:
+            rp = common.load_replay(path)
+            scn = rp['scenario']
+            def job():
+                quiet_stdout()
+                warm_up(athlib, scn)
+                accepted, traces, wlines, norders = oracle(athlib, scn['programs'])
+                r = run_one(athlib, scn['programs'], rp['trace'], 300000)
+                return violation_class(scn['programs'], accepted, r), r
+            vc, r = common.fork_call(job, wall_cap=300.0, what='corpus replay')
+            res.append((os.path.basename(path), rp, vc, r))
+        return res
+    out = {'replayed': 0, 'reproduced': 0, 'viols': []}
+    if not files:
+        return out
+    for part in common.run_pool(w, min(common.ncpu(), len(files)), wall_cap=900):
+        for name, rp, vc, r in part:
+            out['replayed'] += 1
+            if vc is not None:
+                out['reproduced'] += 1
+                out['viols'].append({'class': vc[0], 'detail': vc[1], 'scenario': rp['scenario'], 'schedule': rp['trace'],
+                                     'digest': r['digest'], 'switches': r['switches'], 'sched_seed': 0, 'scenario_index': -1,
+                                     'minimised_from': {'corpus_file': name}})
+    return out
 
 
 def replay(path):
